@@ -208,6 +208,50 @@ def version_part():
             re.sub(r"[^ -~]", "?", str(e))[:300])
 
 
+@part
+def idle_release_part():
+    """C26/C36/C14: see translate_idle.py (own module; a failure only withholds the dbos_*/idle_release_*
+    definitions, so only the developments that use them stop compiling)."""
+    import translate_idle as TI
+    try:
+        return TI.extract(src)
+    except (TI.Err, TranslateError, SyntaxError) as e:
+        return "Definition idle_release_TRANSLATE_ERROR : string := %s." % coq_string(
+            re.sub(r"[^ -~]", "?", str(e))[:300])
+
+
+@part
+def handler_status_part():
+    """C24: abstract_workflow_store.py — the Status literal (in declaration order) and
+    TERMINAL_STATUSES.  A failure only withholds these two definitions (C24 stops compiling)."""
+    rel = "packages/llama-agents-server/src/llama_agents/server/_store/abstract_workflow_store.py"
+    try:
+        mod = module(rel)
+        st = module_assign(mod, "Status")
+        if not (isinstance(st, ast.Subscript) and isinstance(st.value, ast.Name) and st.value.id == "Literal"
+                and isinstance(st.slice, ast.Tuple)
+                and all(isinstance(e, ast.Constant) and isinstance(e.value, str) for e in st.slice.elts)):
+            raise TranslateError("Status is not Literal[<strings>]")
+        statuses = [e.value for e in st.slice.elts]
+        tv = module_assign(mod, "TERMINAL_STATUSES")
+        if not (isinstance(tv, ast.Call) and isinstance(tv.func, ast.Name) and tv.func.id == "frozenset"
+                and len(tv.args) == 1 and isinstance(tv.args[0], (ast.Tuple, ast.List, ast.Set))
+                and all(isinstance(e, ast.Constant) and isinstance(e.value, str) for e in tv.args[0].elts)):
+            raise TranslateError("TERMINAL_STATUSES is not frozenset((<strings>))")
+        terminal = [e.value for e in tv.args[0].elts]
+        if len(set(statuses)) != len(statuses) or any(t not in statuses for t in terminal):
+            raise TranslateError("TERMINAL_STATUSES is not a subset of Status")
+        fn = find_func(mod, "is_terminal_status")
+        if ast.unparse(fn.body[-1]) != "return status in TERMINAL_STATUSES":
+            raise TranslateError("is_terminal_status: unexpected body")
+        return ("(* from %s *)\nDefinition handler_statuses : list string := [%s].\n"
+                "Definition handler_terminal_statuses : list string := [%s]."
+                % (rel, "; ".join(coq_string(x) for x in statuses), "; ".join(coq_string(x) for x in terminal)))
+    except (TranslateError, SyntaxError) as e:
+        return "Definition handler_status_TRANSLATE_ERROR : string := %s." % coq_string(
+            re.sub(r"[^ -~]", "?", str(e))[:300])
+
+
 def generate():
     body = ["(* GENERATED by harness/translate.py from /repo — do not edit. *)",
             "From Coq Require Import List ZArith String.", "Import ListNotations.",
